@@ -124,8 +124,8 @@ func LoadKnown(path string) (*KnownFile, error) {
 }
 
 type RuleStat struct {
-	Instances int `json:"instances"`
-	Min       int `json:"min"`
+	Instances  int `json:"instances"`
+	Min        int `json:"min"`
 	Discharged int `json:"discharged"`
 	Violations int `json:"violations"`
 	Undecided  int `json:"undecided"`
@@ -148,6 +148,9 @@ func RunProperty(p *Program, prop, tier string, rules []*Rule, known *KnownFile)
 	t0 := time.Now()
 	res := &Result{Property: prop, Tier: tier, Stats: map[string]*RuleStat{}, Extra: map[string]interface{}{}}
 	for _, r := range rules {
+		if skip := os.Getenv("SQLCHECK_SKIP"); skip != "" && strings.Contains(","+skip+",", ","+r.ID+",") {
+			continue // experiments only: measure what a rule contributes
+		}
 		serves := false
 		for _, pr := range r.Props {
 			if pr == prop {
